@@ -241,7 +241,7 @@ theorem cntInc_row_length (c : List (List Nat)) (o r o' : Nat) :
 def visitStep (ord row : Nat) (fx : Fx) (st : ScanSt) : ScanSt :=
   let st1 := { st with cnt := cntBump (cntInc st.cnt ord row) ord row fx, osv := 0, anyValid := true }
   let st2 := applyFx fx st1
-  { st2 with rowCount := st2.rowCount + 1,
+  { st2 with rowCount := st2.rowCount + 1, rowCountTotal := st2.rowCountTotal + 1,
              trace := { ord := ord, row := row, speed := st2.speed, bpm := st2.bpm,
                         delay := fx.delayOf, t0 := st.rowStart } :: st2.trace }
 
@@ -251,19 +251,22 @@ theorem clamp_bpm_id (st : ScanSt) (h : 20 ≤ st.bpm) :
   rw [this]
 
 theorem scanRows_cons_fresh (ord : Nat) (fx : Fx) (rest : List Fx) (row : Nat) (st : ScanSt)
-    (hb : 20 ≤ st.bpm) (hf : cntAt st.cnt ord row = 0) (hj : fx.isJump = false) :
+    (hb : 20 ≤ st.bpm) (hf : cntAt st.cnt ord row = 0) (hj : fx.isJump = false)
+    (hg : st.rowCountTotal ≤ rowLimit) :
     scanRows ord (fx :: rest) row st = scanRows ord rest (row + 1) (visitStep ord row fx st) := by
   have hc : (if st.bpm < 20 then 20 else st.bpm) = st.bpm := by split <;> omega
+  have hg' : ¬ st.rowCountTotal > rowLimit := by omega
   rw [scanRows]
-  simp only [hc, hf, ne_eq, not_true_eq_false, if_false]
+  simp only [hc, hg', hf, ne_eq, not_true_eq_false, if_false]
   cases fx <;> simp [Fx.isJump] at hj <;> (cases st; rfl)
 
 theorem scanRows_cons_jump (ord : Nat) (j : Nat) (rest : List Fx) (row : Nat) (st : ScanSt)
-    (hb : 20 ≤ st.bpm) (hf : cntAt st.cnt ord row = 0) :
+    (hb : 20 ≤ st.bpm) (hf : cntAt st.cnt ord row = 0) (hg : st.rowCountTotal ≤ rowLimit) :
     scanRows ord (.jump j :: rest) row st = .done (visitStep ord row (.jump j) st) (some j) := by
   have hc : (if st.bpm < 20 then 20 else st.bpm) = st.bpm := by split <;> omega
+  have hg' : ¬ st.rowCountTotal > rowLimit := by omega
   rw [scanRows]
-  simp only [hc, hf, ne_eq, not_true_eq_false, if_false]
+  simp only [hc, hg', hf, ne_eq, not_true_eq_false, if_false]
   cases st; rfl
 
 theorem applyFx_cnt (fx : Fx) (st : ScanSt) : (applyFx fx st).cnt = st.cnt := by
@@ -279,6 +282,8 @@ theorem applyFx_trace (fx : Fx) (st : ScanSt) : (applyFx fx st).trace = st.trace
 theorem applyFx_osv (fx : Fx) (st : ScanSt) : (applyFx fx st).osv = st.osv := by
   cases fx <;> simp [applyFx] ; split <;> rfl
 theorem applyFx_anyValid (fx : Fx) (st : ScanSt) : (applyFx fx st).anyValid = st.anyValid := by
+  cases fx <;> simp [applyFx] ; split <;> rfl
+theorem applyFx_rct (fx : Fx) (st : ScanSt) : (applyFx fx st).rowCountTotal = st.rowCountTotal := by
   cases fx <;> simp [applyFx] ; split <;> rfl
 
 theorem visitStep_cnt_gen (ord row fx st) :
@@ -310,6 +315,8 @@ theorem visitStep_osv (ord row fx st) : (visitStep ord row fx st).osv = 0 := by
   simp [visitStep, applyFx_osv]
 theorem visitStep_anyValid (ord row fx st) : (visitStep ord row fx st).anyValid = true := by
   simp [visitStep, applyFx_anyValid]
+theorem visitStep_rct (ord row fx st) : (visitStep ord row fx st).rowCountTotal = st.rowCountTotal + 1 := by
+  simp [visitStep, applyFx_rct]
 
 def posOf (r : RowRec) : Nat × Nat := (r.ord, r.row)
 
@@ -371,6 +378,7 @@ structure RowsDone (ord row : Nat) (fxs : List Fx) (st st' : ScanSt) : Prop wher
   visited : ∀ r, row ≤ r → r < row + fxs.length → cntAt st'.cnt ord r = 1
   trace : st'.trace.map posOf = (rowSeq ord row fxs.length).reverse ++ st.trace.map posOf
   recs : st'.trace = (recSeq ord row fxs st.speed st.bpm st.rowStart).reverse ++ st.trace
+  rct : st'.rowCountTotal = st.rowCountTotal + fxs.length
   valid : fxs ≠ [] → st'.anyValid = true ∧ st'.osv = 0
   same : fxs = [] → st' = st
 
@@ -384,21 +392,22 @@ theorem rowSeq_snoc (ord row n : Nat) : rowSeq ord row (n + 1) = rowSeq ord row 
 theorem scanRows_nojump_app (ord : Nat) (rest : List Fx) : ∀ (fxs : List Fx) (row : Nat) (st : ScanSt),
     (∀ fx ∈ fxs, fx.isJump = false ∧ fx.WF) → (∀ r, row ≤ r → cntAt st.cnt ord r = 0) → 20 ≤ st.bpm →
     ord < st.cnt.length → row + fxs.length ≤ (st.cnt.getD ord []).length →
+    st.rowCountTotal + fxs.length ≤ rowLimit + 1 →
     ∃ st', scanRows ord (fxs ++ rest) row st = scanRows ord rest (row + fxs.length) st' ∧
       RowsDone ord row fxs st st' := by
   intro fxs
   induction fxs with
   | nil =>
-    intro row st _ _ _ _ _
+    intro row st _ _ _ _ _ _
     refine ⟨st, by simp, ?_⟩
     constructor <;> simp [rowsTime, rowsSpeed, rowsBpm, rowSeq, recSeq]
     intro r h1 h2; omega
   | cons fx tl ih =>
-    intro row st hfx hfresh hb hlen hrl
-    rw [List.length_cons] at hrl
+    intro row st hfx hfresh hb hlen hrl hgl
+    rw [List.length_cons] at hrl hgl
     have hfx0 := hfx fx (by simp)
     have hf0 : cntAt st.cnt ord row = 0 := hfresh row (Nat.le_refl _)
-    rw [List.cons_append, scanRows_cons_fresh ord fx (tl ++ rest) row st hb hf0 hfx0.1]
+    rw [List.cons_append, scanRows_cons_fresh ord fx (tl ++ rest) row st hb hf0 hfx0.1 (by omega)]
     obtain ⟨hrs, hsp, hbp⟩ := visitStep_eq_scanStep ord row fx st
     have hsp' : (visitStep ord row fx st).speed = fxSpeed fx st.speed := by rw [hsp, scanStep_speed]
     have hbp' : (visitStep ord row fx st).bpm = fxBpm fx st.bpm := by rw [hbp, scanStep_bpm _ _ hfx0.2]
@@ -414,7 +423,7 @@ theorem scanRows_nojump_app (ord : Nat) (rest : List Fx) : ∀ (fxs : List Fx) (
       exact hfresh r (by omega)
     have hb' : 20 ≤ (visitStep ord row fx st).bpm := by rw [hbp']; exact fxBpm_ge _ _ hb
     obtain ⟨st', he, hd⟩ := ih (row + 1) (visitStep ord row fx st)
-      (fun f hf => hfx f (by simp [hf])) hfresh' hb' hlen' hrl'
+      (fun f hf => hfx f (by simp [hf])) hfresh' hb' hlen' hrl' (by rw [visitStep_rct]; omega)
     have hidx : row + 1 + tl.length = row + (fx :: tl).length := by rw [List.length_cons]; omega
     refine ⟨st', by rw [he, hidx], ?_⟩
     have hrowlt : row < (st.cnt.getD ord []).length := by omega
@@ -441,6 +450,7 @@ theorem scanRows_nojump_app (ord : Nat) (rest : List Fx) : ∀ (fxs : List Fx) (
       simp [rowSeq]
     · rw [hd.recs, visitStep_trace_full _ _ _ _ hfx0.2, hsp', hbp', hrs']
       simp [recSeq]
+    · rw [hd.rct, visitStep_rct, List.length_cons]; omega
     · intro _
       by_cases hr : tl = []
       · subst hr
@@ -454,9 +464,10 @@ theorem scanRows_nojump_app (ord : Nat) (rest : List Fx) : ∀ (fxs : List Fx) (
 
 theorem scanRows_nojump (ord : Nat) (fxs : List Fx) (row : Nat) (st : ScanSt)
     (h1 : ∀ fx ∈ fxs, fx.isJump = false ∧ fx.WF) (h2 : ∀ r, row ≤ r → cntAt st.cnt ord r = 0) (h3 : 20 ≤ st.bpm)
-    (h4 : ord < st.cnt.length) (h5 : row + fxs.length ≤ (st.cnt.getD ord []).length) :
+    (h4 : ord < st.cnt.length) (h5 : row + fxs.length ≤ (st.cnt.getD ord []).length)
+    (h6 : st.rowCountTotal + fxs.length ≤ rowLimit + 1) :
     ∃ st', scanRows ord fxs row st = .done st' none ∧ RowsDone ord row fxs st st' := by
-  obtain ⟨st', he, hd⟩ := scanRows_nojump_app ord [] fxs row st h1 h2 h3 h4 h5
+  obtain ⟨st', he, hd⟩ := scanRows_nojump_app ord [] fxs row st h1 h2 h3 h4 h5 h6
   exact ⟨st', by simpa [scanRows] using he, hd⟩
 
 /-! ## the player, frame by frame -/
